@@ -33,7 +33,7 @@ CHECKS = {
   'bounds': {'quick': 'A over <=3 states, ranks <=2: 2 x {a/0,f/1}, 2 x {a/0,f/1}+unused{x/0,y/1}, 2 x {a/0,b/0,f/1}, 3 x {a/0,b/0} (nullary only), 2 x {a/0,g/2}, 2 x {a/0,g/2}+unused{x/1} with sparse state numbers, 1 x {a/0,b/0,f/1,h/1,g/2,k/2,m/2}+unused{x/1}; all rule subsets and final sets (8..12 free bits per query)',
              'thorough': 'as quick plus 3 x {a/0,f/1} (15 bits), 2 x {a/0,b/0,g/2} (14 bits; once with an unused nullary symbol, once with reversed symbol numbering and swapped state numbers)'},
   'outside': 'more than 3 states (more than 2 with a binary symbol), a unary AND a binary symbol together on 2 states (16 bits: undecided by the engine within 32 GB / 2800 s), rank > 2, more than 8 symbols, alphabets that are not OnTheFlyAlphabet (NotImplementedException by design), automata that use symbols missing from the alphabet or with a rank other than the registered one (precondition of the statement), builds with assertions enabled (-UNDEBUG)',
-  'assumptions': ['the state numbers of the result are below 2^|Q_A| (checked: CHECK id 2)', 'the oracle fixpoint is cut after ROUNDS rounds; convergence is itself a checked condition (CHECK id 4)'],
+  'assumptions': ['the result has at most 2^|Q_A| distinct states, whatever their numbers (decoded through a slot table of the distinct state numbers; checked: CHECK id 2)', 'the oracle fixpoint is cut after ROUNDS rounds; convergence is itself a checked condition (CHECK id 4)'],
   'harnesses': [
     {'name': 'compl', 'src': 'harness/C06/compl.cc', 'tus': C06_TUS,
      'configs': {'quick': C06_QUICK, 'thorough': C06_THOROUGH},
